@@ -4,7 +4,7 @@
    semiring column-DP theorem proofs/SemiringDP.v in the (min,+) semiring proofs/Tropical.v). *)
 From mathcomp Require Import all_ssreflect.
 From WH.Model Require Import PedMEC.
-From WH.Proofs Require Import PedMECProofs.
+From WH.Proofs Require Import PedMECProofs PedMECWitness.
 
 (* The instance used in the non-vacuity examples: a trio (father 0, mother 1, child 2), five
    columns, reads with interior gaps and different weights, trusted genotypes, non-zero
@@ -96,19 +96,25 @@ Theorem C01_witness_cost : forall (I : inst) (beta : seq bool) (tau : seq nat),
 Proof. exact witness_cost. Qed.
 Print Assumptions C01_witness_cost.
 
-(* Stage 2, NOT proved: the back-pointer tables (index_backtrace_table, transmission_backtrace_table),
-   the Gray-code visiting order that decides ties between equally good bipartitions, and the
-   sqrt(n)-checkpointed recomputation of compute_table are not modelled. The full statement would be:
-   the partition and transmission vector reconstructed by the backtrace achieve the reported cost. It
-   is kept here over an abstract backtrace function; instead of a proof, the clause is validated per
-   input by the correspondence check (L1 `l1_witness`: cost_of at the implementation's own returned
-   partition and transmission vector equals the reported cost, evaluated in Coq). *)
-Definition C01_witness_full_statement : Prop :=
-  forall backtrace : inst -> seq bool * seq nat,      (* the model of compute_table's backtrace *)
-  forall I : inst, wf I -> no_conflict I -> no_overflow I ->
-    let: (beta, tau) := backtrace I in
-    [/\ size beta = nreads I, size tau = i_ncols I, all (fun t => t < nT I) tau
-      & Cost (cost_of I beta tau) = dp_cost I].
+(* Stage 2: the backtrace. dp_witness models the back-pointer tables of compute_column
+   (index_backtrace_table = first bipartition in Gray-code order whose cell attains the forward
+   projection minimum, transmission_backtrace_table = first transmission value attaining the cell's
+   minimum), the optimum of the last column, the backtrace loop of compute_table and
+   get_optimal_partitioning / the transmission vector of get_super_reads. For every well-formed instance
+   without Mendelian conflict it returns a bipartition of all reads and one transmission value per
+   column whose PedMEC objective is exactly the reported cost (hence, with C01_dp_cost_optimal, the
+   optimum). Not modelled: WHEN columns are stored, dropped and recomputed (the sqrt(n) check-pointing);
+   the model treats the tables of a column as a function of the column, which is what recomputation
+   yields; the correspondence check compares the returned witness itself (L2 `l2_witness`, exact, incl.
+   tie-breaking) on instances with k = floor(sqrt(n)) > 1. *)
+Theorem C01_dp_witness_achieves : forall I : inst,
+  wf I -> no_conflict I -> no_overflow I ->
+  exists beta tau v,
+    [/\ dp_witness I = Some (beta, tau), size beta = nreads I, size tau = i_ncols I,
+        all (fun t => t < nT I) tau
+      & cost_of I beta tau = Some v /\ dp_cost I = Cost (Some v)].
+Proof. move=> I hwf hnc _; exact: (dp_witness_achieves hwf hnc). Qed.
+Print Assumptions C01_dp_witness_achieves.
 
 (* --- 3. alleles of the super reads ------------------------------------------------------------ *)
 
@@ -158,6 +164,10 @@ Example C01_ex_trio_alleles :
   = Some [:: (0, 1, 3); (0, 1, 3); (1, 1, 3)] /\
   optimal_assignments ex_trio 3 (restrict (active ex_trio 3) [:: true; true; false; true]) 0
   = [:: [:: false; true; false; true]].
+Proof. by vm_compute. Qed.
+Example C01_ex_trio_backtrace :
+  dp_witness ex_trio = Some ([:: true; true; false; true], [:: 3; 3; 0; 0; 0]) /\
+  dp_witness ex_trio_gl = Some ([:: true; true; false; true], [:: 3; 3; 0; 0; 0]).
 Proof. by vm_compute. Qed.
 (* a Mendelian conflict is reported as such, and then no solution has finite cost *)
 Example C01_ex_conflict :
